@@ -94,7 +94,7 @@ def session_writes():
             except W.ReplayDivergence:
                 continue        # e.g. no timer armed with hold time 0
             for c in w.sim.connectors:
-                if c.transport is None:
+                if c.transport is None or not hasattr(c.transport, "writes"):
                     continue
                 for _, d in c.transport.writes:
                     frames, err, rest = wire.deframe(d)
